@@ -766,6 +766,11 @@ func (f *STFS) Rename(oldname, newname string) error {
 		}
 	}
 
+	// Renaming an entry to its own name changes nothing
+	if oldname == newname {
+		return nil
+	}
+
 	// A directory can't be moved into itself
 	if source.Typeflag == tar.TypeDir && strings.HasPrefix(newname, strings.TrimSuffix(oldname, "/")+"/") {
 		return os.ErrInvalid
